@@ -7,14 +7,20 @@ token name, so two different tokens never render to equal content.
 """
 import hashlib
 import random
-from xml.sax.saxutils import escape, quoteattr
+from xml.sax.saxutils import escape as _escape, quoteattr
+
+
+def escape(s):
+    """text content: a carriage return only survives parsing as a character reference"""
+    return _escape(s, {"\r": "&#13;"})
+
 
 NONE = "~"
 ID_TAGS = ("storyID", "itemID", "roID", "messageID")
 
 WORDS = ["alpha", "Bravo", "čárka", "δέλτα", "echo & co", "fox<trot>", "golf \"quoted\"", "hôtel",
          "индия", "juliet's", "キロ", "lima]]>", "mike nbsp", "𝒏ovember", "🙂scar", "papa\ttab",
-         "q=1&r=2", "<!--not a comment-->", "  padded  ", "x" * 40]
+         "q=1&r=2", "<!--not a comment-->", "  padded  ", "x" * 40, "carriage\rreturn", "cr\r\nlf"]
 TAGS = ["mosAbstract", "objSlug", "objDur", "objTB", "ncsItem", "studioCommand", "text", "b", "i",
         "custom-tag", "ns_tag", "Element.With.Dots",
         # look-alikes of structural elements, nested where they mean nothing (depth >= 3)
@@ -218,7 +224,7 @@ class Gamma:
             return ["<%s/>" % tag]
         return ["<%s>%s</%s>" % (tag, escape(ref["id"]), tag)]
 
-    def msg(self, m, message_id=2000, ro_id="RO1"):
+    def msg(self, m, message_id=2000, ro_id="RO1", loose_mid=False):
         cls = m["cls"]
         # the envelope of a message is not the envelope of the running order: vary its header elements
         rh = self.rng("envelope", cls, message_id)
@@ -227,7 +233,15 @@ class Gamma:
             head.append("<ncsID>ncs.verif</ncsID>")
         # a message id is a number: leading zeros or surrounding blanks do not change it
         mid_text = ("%07d" % message_id) if rh.random() < 0.25 else (" %d " % message_id) if rh.random() < 0.15 else "%d" % message_id
-        head.append("<messageID>%s</messageID>" % mid_text)
+        # merging never needs the message id (only collections sort by it): with loose_mid it may be missing, blank or
+        # not a number, and the merge - or its refusal - must be the same
+        x = rh.random() if loose_mid else 1.0
+        if x < 0.08:
+            head.append("<messageID/>")
+        elif x < 0.16:
+            head.append("<messageID>n/a-%d</messageID>" % message_id)
+        elif x >= 0.24:
+            head.append("<messageID>%s</messageID>" % mid_text)
         if rh.random() < 0.3:
             head.append("<mosMsgTime>2020-01-01T10:00:00</mosMsgTime>")
         if rh.random() < 0.2:
